@@ -32,7 +32,7 @@ import (
 const (
 	c33Hash       = "arr(32,u8)"
 	c33DigestData = "st(_:arr(4,u8),_:bytes)"
-	c33DigestItem = "enum(D;4:" + c33DigestData + ",5:" + c33DigestData + ",6:" + c33DigestData + ",8:st())"
+	c33DigestItem = "enum(D;0:sl(u8),4:" + c33DigestData + ",5:" + c33DigestData + ",6:" + c33DigestData + ",8:st())"
 	c33Header     = "st(_:" + c33Hash + ",_:uint,_:" + c33Hash + ",_:" + c33Hash + ",_:sl(" + c33DigestItem + "))"
 )
 
